@@ -24,7 +24,25 @@ type target struct {
 	Funcs []string // function or method names; "*" = every function of the file
 }
 
+// pkgOf: the injected package each kind of instrumentation calls into.
+var pkgOf = map[string]string{"overlay-crash": "verifcrash", "overlay-yield": "verifyield"}
+
 var crashTargets = map[string][]target{
+	// C11: yield points on both sides of the unrotated -> rotated hand-over (query listing, block and
+	// column readers, rotation, segstore creation). Per-event hot paths are left out.
+	"overlay-yield": {
+		{"pkg/segment/query/segquery.go", []string{"getAllSegmentsInQuery", "getAllUnrotatedSegments", "getAllRotatedSegmentsInQuery", "GetSSRsFromQSR",
+			"applyFilterOperatorUnrotatedRawSearchRequest", "applyFilterOperatorUnrotatedPQSRequest", "ApplySinglePQSRawSearch"}},
+		{"pkg/segment/query/processor/searcher.go", []string{"getBlocks", "getQSRSToProcess", "initializeQSRs", "fetchRRCs", "readSortedRRCs",
+			"addRRCsFromRawSearch", "addRRCsFromPQMR", "getPQMRsFromQSRs"}},
+		{"pkg/segment/reader/segread/multicolreader.go", []string{"initNewMultiColumnReader", "InitSharedMultiColumnReaders"}},
+		{"pkg/segment/reader/record/recordreader.go", []string{"readUserDefinedColForRRCs"}},
+		{"pkg/segment/query/metadata/unrotatedmeta.go", []string{"CheckMicroIndicesForUnrotated", "createSearchRequestForUnrotated"}},
+		{"pkg/segment/writer/segstore.go", []string{"checkAndRotateColFiles", "CleanupUnrotatedSegment", "AppendWipToSegfile", "resetSegStore"}},
+		{"pkg/segment/writer/segwriter.go", []string{"createSegStore", "getOrCreateSegStore", "ForceRotateSegmentsForTest", "FlushWipBufferToFile"}},
+		{"pkg/segment/writer/unrotatedquery.go", []string{"removeSegKeyFromUnrotatedInfo", "updateUnrotatedBlockInfo", "updateRecentlyRotatedSegmentFiles"}},
+		{"pkg/segment/writer/segmetarw.go", []string{"addSegmeta"}},
+	},
 	// C07: log flush / rotate / metadata rewrite
 	"overlay-crash": {
 		{"pkg/segment/writer/segstore.go", []string{"AppendWipToSegfile", "resetWipBlock", "resetSegStore", "checkAndRotateColFiles",
@@ -97,6 +115,59 @@ func Record(on bool) {
 func Names() []string { return names }
 `
 
+const yieldPkgSrc = `// Package verifyield is injected by the /verif overlay (it does not exist in the repository).
+package verifyield
+
+import (
+	"runtime"
+	"sync/atomic"
+	"time"
+)
+
+var permille, maxMicros int64
+var seed, ctr uint64
+
+// Arm switches the yield points on: at about permille/1000 of the hits the calling goroutine yields or
+// sleeps for up to maxMicros microseconds (0 = off). The decisions are a function of seed and hit number.
+func Arm(s uint64, p, m int64) {
+	atomic.StoreUint64(&seed, s)
+	atomic.StoreUint64(&ctr, 0)
+	atomic.StoreInt64(&maxMicros, m)
+	atomic.StoreInt64(&permille, p)
+}
+
+func mix(x uint64) uint64 {
+	x += 0x9E3779B97F4A7C15
+	x = (x ^ (x >> 30)) * 0xBF58476D1CE4E5B9
+	x = (x ^ (x >> 27)) * 0x94D049BB133111EB
+	return x ^ (x >> 31)
+}
+
+// Point is a yield point.
+func Point(name string) {
+	p := atomic.LoadInt64(&permille)
+	if p <= 0 {
+		return
+	}
+	n := atomic.AddUint64(&ctr, 1)
+	h := mix(atomic.LoadUint64(&seed) ^ mix(n))
+	if int64(h%1000) >= p {
+		return
+	}
+	m := atomic.LoadInt64(&maxMicros)
+	if m <= 0 {
+		runtime.Gosched()
+		return
+	}
+	d := int64((h >> 12) % uint64(m+1))
+	if d < 20 {
+		runtime.Gosched()
+		return
+	}
+	time.Sleep(time.Duration(d) * time.Microsecond)
+}
+`
+
 func main() {
 	repo := flag.String("repo", "/repo", "repository root")
 	out := flag.String("out", "", "output directory")
@@ -116,12 +187,17 @@ func main() {
 		fatal(err)
 	}
 	replace := map[string]string{}
-	// the verifcrash package
-	crashFile := filepath.Join(*out, "verifcrash.go")
-	if err := os.WriteFile(crashFile, []byte(crashPkgSrc), 0o644); err != nil {
+	// the injected package
+	pointPkg = pkgOf[*kind]
+	pkgSrc := crashPkgSrc
+	if pointPkg == "verifyield" {
+		pkgSrc = yieldPkgSrc
+	}
+	crashFile := filepath.Join(*out, pointPkg+".go")
+	if err := os.WriteFile(crashFile, []byte(pkgSrc), 0o644); err != nil {
 		fatal(err)
 	}
-	replace[filepath.Join(*repo, "pkg/verifcrash/verifcrash.go")] = crashFile
+	replace[filepath.Join(*repo, "pkg/"+pointPkg+"/"+pointPkg+".go")] = crashFile
 	total := 0
 	for i, tg := range targets {
 		src := filepath.Join(*repo, tg.File)
@@ -140,8 +216,11 @@ func main() {
 	if err := os.WriteFile(filepath.Join(*out, "overlay.json"), b, 0o644); err != nil {
 		fatal(err)
 	}
-	fmt.Printf("overlay: %d crash points in %d files\n", total, len(targets))
+	fmt.Printf("overlay: %d %s points in %d files\n", total, pointPkg, len(targets))
 }
+
+// pointPkg is the package the inserted calls go to (set from the kind).
+var pointPkg = "verifcrash"
 
 func fatal(err error) {
 	fmt.Fprintln(os.Stderr, "overlay:", err)
@@ -184,7 +263,7 @@ func instrument(src, dst string, funcs []string) (int, []string, error) {
 		}
 	}
 	if count > 0 {
-		addImport(f, "github.com/siglens/siglens/pkg/verifcrash")
+		addImport(f, "github.com/siglens/siglens/pkg/"+pointPkg)
 	}
 	var buf bytes.Buffer
 	// comments are dropped on purpose: positions of inserted nodes would confuse the printer
@@ -197,7 +276,7 @@ func instrument(src, dst string, funcs []string) (int, []string, error) {
 
 func pointCall(name string, n int) ast.Stmt {
 	return &ast.ExprStmt{X: &ast.CallExpr{
-		Fun:  &ast.SelectorExpr{X: ast.NewIdent("verifcrash"), Sel: ast.NewIdent("Point")},
+		Fun:  &ast.SelectorExpr{X: ast.NewIdent(pointPkg), Sel: ast.NewIdent("Point")},
 		Args: []ast.Expr{&ast.BasicLit{Kind: token.STRING, Value: strconv.Quote(name + ":" + strconv.Itoa(n))}},
 	}}
 }
